@@ -18,10 +18,11 @@ Ev == Rec[i]
 \* constants a .cfg file cannot spell
 TR_AuthorOrder == <<"me", "r1", "r2">>
 TR_RemoteBodies == [s \in 1..12 |-> (s - 1) % 3 # 1]   \* = harness record.rs remote_body
+TR_RemotePrunes == [s \in 1..12 |-> (s - 1) % 5 = 4]   \* = harness record.rs remote_prune
 TR_ResetHeights == {-1}
 
 \* ---- JSON -> spec values
-OpOf(j) == MkOp(j.a, j.tp, j.seq, j.body)
+OpOf(j) == MkOpP(j.a, j.tp, j.seq, j.body, j.prune)
 SetOfOps(js) == {OpOf(js[k]) : k \in 1..Len(js)}
 CursorOf(j) == [a \in Authors |-> IF a \in DOMAIN j THEN j[a] ELSE NoneH]
 AssocOf(js) == {<<js[k].tp, js[k].a>> : k \in 1..Len(js)}
@@ -39,7 +40,7 @@ StepReset ==
     /\ up' = FALSE /\ policy' = "auto" /\ pub' = IdlePub /\ pubq' = <<>> /\ st' = IdleSt /\ rq' = <<>>
     /\ ackLock' = "none" /\ txHolder' = "none" /\ chan' = <<>> /\ app' = IdleApp
     /\ expect' = {} /\ replayed' = {} /\ sent' = {} /\ base' = EmptyCursor /\ ackd' = {} /\ lastRes' = "none"
-    /\ nPub' = 0 /\ nImp' = 0 /\ nAck' = 0 /\ nForeign' = 0 /\ nReset' = 0 /\ crashes' = 0
+    /\ nPub' = 0 /\ nPrune' = 0 /\ nImp' = 0 /\ nAck' = 0 /\ nForeign' = 0 /\ nReset' = 0 /\ crashes' = 0
 
 StepOpen ==
     /\ Ev.ev = "Open"
@@ -50,8 +51,11 @@ StepOpen ==
 
 Plain(name, A) == Ev.ev = name /\ A /\ Matches
 
+StepForgeBegin ==
+    /\ Ev.ev = "ForgeBegin" /\ ForgeBegin(Ev.op.prune, Ev.op.body) /\ pub'.op.seq = Ev.op.seq /\ Matches
+
 StepTakePublished ==
-    /\ Ev.ev = "TakePublished" /\ TakePublished /\ st'.op = OpOf(Ev.op) /\ Matches
+    /\ Ev.ev = "TakePublished" /\ TakePublished /\ st'.op.seq = Ev.op.seq /\ Matches
 
 StepTakeImported ==
     /\ Ev.ev = "TakeImported" /\ TakeImported(Ev.op.a, Ev.op.seq) /\ st'.op = OpOf(Ev.op) /\ Matches
@@ -89,7 +93,9 @@ StepFreeRestart ==
            prevc == CursorOf(Ev.prev_cursor)
        IN /\ R = {o \in S : o.tp = T /\ o.body /\ o.seq > c[o.a]}
           /\ \A o \in A : o.tp = T => c[o.a] >= o.seq
-          /\ \A k \in 1..Len(Ev.published) : MkOp(Me, T, Ev.published[k], TRUE) \in S
+          \* a completed publish is stored, unless a later operation with the prune flag removed it
+          /\ \A k \in 1..Len(Ev.published) :
+                \E o \in S : o.a = Me /\ o.tp = T /\ (o.seq = Ev.published[k] \/ (o.prune /\ o.seq > Ev.published[k]))
           /\ \A a \in Authors : c[a] >= prevc[a]
           /\ Len(Ev.others) = 0
           /\ (R = {}) = (Len(Ev.markers) = 0)
@@ -99,7 +105,7 @@ StepFreeRestart ==
     /\ ackLock' = "none" /\ txHolder' = "none" /\ chan' = <<>> /\ app' = IdleApp
     /\ expect' = {} /\ replayed' = {} /\ sent' = {} /\ lastRes' = "none"
     /\ nReset' = nReset + 1
-    /\ UNCHANGED <<nPub, nImp, nAck, nForeign, crashes>>
+    /\ UNCHANGED <<nPub, nPrune, nImp, nAck, nForeign, crashes>>
 
 TraceInit == Init /\ i = 1
 
@@ -107,7 +113,7 @@ TraceNext ==
     /\ i <= Len(Rec)
     /\ i' = i + 1
     /\ \/ StepReset \/ StepOpen \/ StepCrash \/ StepFreeRestart
-       \/ Plain("ForgeBegin", ForgeBegin) \/ Plain("ForgeCommit", ForgeCommit) \/ Plain("Enqueue", Enqueue)
+       \/ StepForgeBegin \/ Plain("ForgeCommit", ForgeCommit) \/ Plain("Enqueue", Enqueue)
        \/ Plain("ForgeForeign", ForgeForeign)
        \/ StepTakePublished \/ StepTakeImported
        \/ Plain("PipelineProcess", PipelineProcess) \/ Plain("SkipAck", SkipAck) \/ Plain("AckRead", AckRead)
